@@ -126,6 +126,16 @@ var $methodVal = (recv, name) => {
         return f;
     }
     var method = recv[name];
+    if (method.$fwd !== undefined) {
+        // The method only forwards to the implementation attached to another form of
+        // the receiver (value or pointer). The receiver is evaluated now, and binding
+        // the implementation itself keeps the call depth that recover() expects.
+        while (method.$fwd !== undefined) {
+            recv = method.$fwd.call(recv);
+            method = recv[name];
+        }
+        return method.bind(recv);
+    }
     f = method.bind(recv);
     vals[name] = f;
     return f;
@@ -140,7 +150,12 @@ var $methodExpr = (typ, name) => {
                 if (typ.wrapped) {
                     args[0] = new typ(args[0]);
                 }
-                return Function.call.apply(method, args);
+                var m = method;
+                while (m.$fwd !== undefined) {
+                    args[0] = m.$fwd.call(args[0]);
+                    m = args[0][name];
+                }
+                return Function.call.apply(m, args);
             } finally {
                 $stackDepthOffset++;
             }
@@ -156,7 +171,12 @@ var $ifaceMethodExpr = name => {
         expr = $ifaceMethodExprs["$" + name] = (...args) => {
             $stackDepthOffset--;
             try {
-                return Function.call.apply(args[0][name], args);
+                var m = args[0][name];
+                while (m.$fwd !== undefined) {
+                    args[0] = m.$fwd.call(args[0]);
+                    m = args[0][name];
+                }
+                return Function.call.apply(m, args);
             } finally {
                 $stackDepthOffset++;
             }
